@@ -125,6 +125,9 @@ func runPlan(prop string, plan []planItem) int {
 		labels := []string{}
 		for k, v := range last.Labels {
 			labels = append(labels, fmt.Sprintf("%s=%d", k, v))
+			if strings.HasPrefix(k, "undecided:") {
+				rep.Undecide(pi.Sc.Name + ": " + strings.TrimPrefix(k, "undecided:"))
+			}
 		}
 		sort.Strings(labels)
 		scName := pi.Sc.Name
